@@ -55,11 +55,13 @@ def _seq(children, allow_leaf=True):
             children.map(lambda s: ["insert", [s]]),
             children.map(lambda s: ["insert", [s]]),
             children.map(lambda s: ["insert_tuple", [s]]),
+            children.map(lambda s: ["insert_deque", [s]]),
+            children.map(lambda s: ["replace_deque", [s]]),
         )
         tail = st.one_of(st.none(), children, children, st.just("LEAF") if allow_leaf else st.none())
     return st.fixed_dictionaries({
         # "one" (a bare, unsequenced result) only applies to nodes with exactly one child, hence its weight
-        "u": st.sampled_from(["tuple", "list", "iter", "one", "one", "one"]),
+        "u": st.sampled_from(["tuple", "list", "iter", "deque", "one", "one", "one"]),
         "frames": st.lists(elab.map(lambda e: {"e": e}), min_size=0, max_size=3),
         "none_at": st.sampled_from([None, None, None, 0, 1, 2]),
         "tail": tail,
@@ -126,7 +128,7 @@ class Numberer:
             return [k]
         if self.nf >= KMAX - 8:
             return ["none"]
-        if k in ("replace", "replace_tuple", "insert", "insert_tuple"):
+        if k in ("replace", "replace_tuple", "replace_deque", "insert", "insert_tuple", "insert_deque"):
             nodes = []
             for x in e[1]:
                 n = self.frame(["none"]) if x == "FRAME" else (
@@ -250,7 +252,7 @@ def model(case):
             if sc != 0:
                 info.add("self_in_inserted_scope")
             continue
-        if k in ("prune", "empty", "replace", "replace_tuple", "replace1"):
+        if k in ("prune", "empty", "replace", "replace_tuple", "replace_deque", "replace1"):
             if sc != 0:
                 info.add("prune_or_replace_inside_inserted_scope")
             if q and not within(q[0][2], sc) and sc != 0:
@@ -262,7 +264,7 @@ def model(case):
                 for n in (e[1] if k != "replace1" else [e[1]]):
                     _expand(n, sc, new)
                 q = new + q
-        elif k in ("insert", "insert_tuple"):
+        elif k in ("insert", "insert_tuple", "insert_deque"):
             if not q:
                 info.add("insert_on_innermost_frame")
             elif sc != 0 and not within(q[0][2], sc):
@@ -293,7 +295,7 @@ def tree_classes(case):
 
     walk(case["root"])
     for e in case["elab"].values():
-        if e[0] in ("replace", "replace_tuple", "insert", "insert_tuple"):
+        if e[0] in ("replace", "replace_tuple", "replace_deque", "insert", "insert_tuple", "insert_deque"):
             for n in e[1]:
                 walk(n)
         elif e[0] == "replace1":
